@@ -142,6 +142,13 @@ def mixes():
     M['stream s first, then slow push c'] = [dict(kind='stream', init='s', tag='B', down=2, pub='manual', credit='one'), dict(kind='push', init='c', tag='A', rr_mode='slow')]
     M['rr late s first, then slow stream handler c'] = [dict(kind='rr', init='s', tag='B', rr_mode='late'), dict(kind='stream', init='c', tag='A', down=2, pub='manual', credit='one', rr_mode='slow')]
     M['rr late c first, then slow channel handler s'] = [dict(kind='rr', init='c', tag='B', rr_mode='late'), dict(kind='channel', init='s', tag='A', down=1, up=1, pub='manual', credit='one', rr_mode='slow')]
+    # a cleanup step that fails must not abort the rest: a publisher whose cancel() raises; a requester object the application
+    # has obtained but not subscribed to yet (core API and the ReactiveX client, which registers the stream when the observable is created)
+    M['publisher cancel raises (stream c) + rr late c'] = [dict(kind='stream', init='c', tag='A', down=3, pub='manual-craise', credit='one'), dict(kind='rr', init='c', tag='B', rr_mode='late')]
+    M['publisher cancel raises (channel s) + rr late s + rr late c'] = [dict(kind='channel', init='s', tag='A', down=2, up=2, pub='manual-craise', credit='one'), dict(kind='rr', init='s', tag='B', rr_mode='late'), dict(kind='rr', init='c', tag='C', rr_mode='late')]
+    M['unsubscribed stream c + rr late c'] = [dict(kind='stream-unsub', init='c', tag='A'), dict(kind='rr', init='c', tag='B', rr_mode='late')]
+    M['unsubscribed rx stream s + rr late s + stream c'] = [dict(kind='rx-stream-unsub', init='s', tag='A'), dict(kind='rr', init='s', tag='B', rr_mode='late'), dict(kind='stream', init='c', tag='C', down=2, pub='manual', credit='one')]
+    M['unsubscribed channel c + rr late c'] = [dict(kind='channel-unsub', init='c', tag='A'), dict(kind='rr', init='c', tag='B', rr_mode='late')]
     return M
 
 
